@@ -1150,7 +1150,16 @@ func runLoaderProp(prop string, judge string) {
 			if prop == "C20" && o.After != "" {
 				var sigs []string
 				if strings.HasPrefix(o.After, "fatal") {
-					sigs = []string{"after-load:fatal"}
+					// which operation died, and whether the document has the shape of a recorded finding
+					f := strings.Fields(o.After)
+					sig := "after-load:fatal:" + f[len(f)-1]
+					switch {
+					case f[len(f)-1] == "validate" && lcaseCompositionCycle(c):
+						sig += ":schema-reaches-itself-through-a-composition"
+					case f[len(f)-1] == "internalize" && lcaseCallbackCycle(c):
+						sig += ":callback-reaches-itself"
+					}
+					sigs = []string{sig}
 				} else {
 					for _, part := range strings.Split(o.After, ";") {
 						if f := strings.Fields(strings.ReplaceAll(part, ":", " ")); len(f) == 2 {
@@ -1245,6 +1254,8 @@ func afterOps(c *LCase) string {
 			"internalize": func() { doc.InternalizeRefs(loader.Context, nil) },
 		}[name]
 		done := make(chan any, 1)
+		fmt.Printf("phase %s\n", name)
+		os.Stdout.Sync()
 		go func() { done <- catchPanic(f) }()
 		select {
 		case p := <-done:
@@ -1475,6 +1486,15 @@ func c20Directed() []LCase {
 				`"components":{"schemas":{"D":` + withVal + `"default":` + val + `},"E":` + withVal + `"example":` + val + `}}}}`)
 		}
 	}
+	// a callback that registers itself again (an event subscription that renews itself), alone and next to a path that uses it
+	for _, used := range []bool{false, true} {
+		paths := `{}`
+		if used {
+			paths = `{"/s":{"post":{"responses":{"200":{"description":"ok"}},"callbacks":{"onEvent":{"$ref":"#/components/callbacks/C"}}}}}`
+		}
+		mk(`{"openapi":"3.0.3","info":{"title":"t","version":"1"},"paths":` + paths + `,"components":{"callbacks":{"C":{"{$request.body#/u}":{"post":{"responses":{"200":{"description":"ok"}},` +
+			`"callbacks":{"again":{"$ref":"#/components/callbacks/C"}}}}}}}}`)
+	}
 	// chains of diamonds: every level reaches the next one through two edges - validating, serialising and
 	// internalising must stay linear in the number of schemas (65 here), not in the number of paths (2^64)
 	for _, edges := range [][2]string{{"not", "additionalProperties"}, {"allOf", "items"}, {"oneOf", "properties"}, {"anyOf", "not"}, {"items", "additionalProperties"}} {
@@ -1545,4 +1565,109 @@ func c20Directed() []LCase {
 		}
 	}
 	return out
+}
+
+// the root document of a case, as JSON
+func lcaseRoot(c *LCase) map[string]any {
+	var root map[string]any
+	if c.Bytes != "" {
+		json.Unmarshal([]byte(c.Bytes), &root)
+		return root
+	}
+	for _, f := range c.Files {
+		if f.URI == c.Root {
+			b, _ := json.Marshal(f.Doc)
+			json.Unmarshal(b, &root)
+		}
+	}
+	return root
+}
+
+// a component schema reaches itself through allOf / anyOf / oneOf / not edges alone, possibly across
+// files (the recorded finding: Validate checks defaults and examples through VisitJSON, which follows
+// such edges without end).  Files are told apart by their base names, which the generators keep distinct.
+func lcaseCompositionCycle(c *LCase) bool {
+	docs := map[string]map[string]any{}
+	base := func(u string) string { return u[strings.LastIndex(u, "/")+1:] }
+	if c.Bytes != "" {
+		docs[base(c.Root)] = lcaseRoot(c)
+	}
+	for _, f := range c.Files {
+		if _, done := docs[base(f.URI)]; done {
+			continue
+		}
+		var d map[string]any
+		b, _ := json.Marshal(f.Doc)
+		json.Unmarshal(b, &d)
+		docs[base(f.URI)] = d
+	}
+	edges := map[string][]string{}
+	target := func(file, r string) (string, bool) {
+		i := strings.Index(r, "#/components/schemas/")
+		if i < 0 {
+			return "", false
+		}
+		f := file
+		if i > 0 {
+			f = base(r[:i])
+		}
+		return f + "#" + r[i+len("#/components/schemas/"):], true
+	}
+	var collect func(file, from string, v any)
+	collect = func(file, from string, v any) {
+		m, ok := v.(map[string]any)
+		if !ok {
+			return
+		}
+		if r, ok := m["$ref"].(string); ok {
+			if t, ok := target(file, r); ok {
+				edges[from] = append(edges[from], t)
+			}
+			return
+		}
+		for _, k := range []string{"allOf", "anyOf", "oneOf"} {
+			if l, ok := m[k].([]any); ok {
+				for _, e := range l {
+					collect(file, from, e)
+				}
+			}
+		}
+		collect(file, from, m["not"])
+	}
+	for file, d := range docs {
+		comps, _ := d["components"].(map[string]any)
+		schemas, _ := comps["schemas"].(map[string]any)
+		for name, sch := range schemas {
+			collect(file, file+"#"+name, map[string]any{"allOf": []any{sch}})
+		}
+	}
+	var reach func(from, to string, seen map[string]bool) bool
+	reach = func(from, to string, seen map[string]bool) bool {
+		for _, n := range edges[from] {
+			if n == to {
+				return true
+			}
+			if !seen[n] {
+				seen[n] = true
+				if reach(n, to, seen) {
+					return true
+				}
+			}
+		}
+		return false
+	}
+	for from := range edges {
+		if reach(from, from, map[string]bool{}) {
+			return true
+		}
+	}
+	return false
+}
+
+// a callback that is reached again from one of its own operations' callbacks
+func lcaseCallbackCycle(c *LCase) bool {
+	b, _ := json.Marshal(lcaseRoot(c))
+	s := string(b)
+	i := strings.Index(s, `"callbacks"`)
+	return i >= 0 && strings.Contains(s[i+1:], `"callbacks"`) && strings.Contains(s, `#/components/callbacks/`)
 }
